@@ -11,7 +11,8 @@ INVARIANTS = ["ReadCorrect", "CachedTotalIsIdeal", "SymmetricPSD"]
 PROPERTIES = ["RejectLeavesUnchanged"]
 
 
-def constants(kind, depth, max_sources=3, off=(), faults=()):
+def constants(kind, depth, max_sources=3, off=(), faults=(), reload=False):
+    off = tuple(off) + (() if reload else ("Reload",))
     return dict(Kind='"%s"' % kind, MaxSources=max_sources, MaxDepth=depth, Off=list(off), Faults=list(faults))
 
 
